@@ -1,5 +1,6 @@
 \* state commitment level, exhaustive: 2 contracts + system contract, 2 slots, values {0,1}, 2 class hashes,
 \* 1 Sierra class, <= 2 blocks of <= 3 updates
+\* measured: 47 536 distinct states (7 s)
 CONSTANTS
   Contracts = {"c1", "c2"}
   Sys = "sys"
